@@ -44,6 +44,8 @@ def run_vx(unit_list, units, workdir):
                     it['partial'] = True
                 if e.opts.get('no_eager_iter'):
                     it['no_eager_iter'] = True
+                if e.opts.get('contains_as_loop'):
+                    it['contains_as_loop'] = True
                 for k in ('into_as', 'slice_before', 'ret_name', 'slice_from', 'frag_name', 'frag_params', 'frag_ret'):
                     if k in e.opts:
                         it[k] = e.opts[k]
